@@ -623,7 +623,12 @@ impl Task {
     pub fn is_ready(&self) -> bool {
         match &self.node.content {
             NodeContent::Branch(n) => {
-                let siblings = self.siblings();
+                // only the other branches decide; acts of the same step are not alternatives
+                let siblings: Vec<_> = self
+                    .siblings()
+                    .into_iter()
+                    .filter(|iter| iter.is_kind(NodeKind::Branch))
+                    .collect();
                 if !n.needs.is_empty() {
                     if siblings
                         .iter()
